@@ -218,9 +218,9 @@ pub struct Chan { pub context: Ctx }
 //@end
 //@extract lightning/src/ln/channelmanager.rs :: impl ChannelManager :: fn from_channel_manager_data
 //@slice R15
-    if !found_htlc { $pre:any failed_htlcs.push($t:seq); }
+    for (monitor_htlc_source, _) in monitor.get_all_current_outbound_htlcs() { $scan:any } if $c:cond { $pre:any failed_htlcs.push($t:seq); }
 //@with
-    fn fail_htlc_the_monitor_no_longer_has(found_htlc: bool, channel: &Chan, channel_htlc_source: &HTLCSource, payment_hash: &PaymentHash, failed_htlcs: &mut Vec<(HTLCSource, PaymentHash, PublicKey, ChannelId, LocalHTLCFailureReason, Option<Extra>)>) { if !found_htlc { failed_htlcs.push($t); } }
+    fn fail_htlc_the_monitor_no_longer_has(found_htlc: bool, channel: &Chan, channel_htlc_source: &HTLCSource, payment_hash: &PaymentHash, failed_htlcs: &mut Vec<(HTLCSource, PaymentHash, PublicKey, ChannelId, LocalHTLCFailureReason, Option<Extra>)>) { if $c { failed_htlcs.push($t); } }
 //@ensures P C10 an-htlc-of-the-stale-manager-that-the-newer-monitor-no-longer-has-is-queued-to-be-failed-back-and-one-the-monitor-has-is-left-to-the-monitor
     !found_htlc ==> final(failed_htlcs)@ == old(failed_htlcs)@.push((*channel_htlc_source, *payment_hash, channel.context.cp, channel.context.id, LocalHTLCFailureReason::ChannelClosed, None)),
     found_htlc ==> final(failed_htlcs)@ == old(failed_htlcs)@,
